@@ -33,9 +33,13 @@ def gen_world(rng, idx):
     prefix = 'vwl%d' % idx
     layers = gen.random_layer_graph(rng, nmax=6, nmin=2, p_edge=0.45,
                                     p_hook=0.75)
-    if rng.random() < 0.15:
+    r = rng.random()
+    if r < 0.15:
         # three bases, two of them with a common base, one unrelated root
         layers = gen.diamond_family(rng, p_hook=0.75)
+    elif r < 0.3:
+        # a layer on two roots and siblings on one of them
+        layers = gen.mi_sibling_family(rng, p_hook=0.75)
     tbl = {}
     for ls in layers:
         if rng.random() < 0.8:
